@@ -27,6 +27,7 @@ _BIN = {
     ast.Sub: operator.sub,
     ast.Mult: operator.mul,
     ast.FloorDiv: operator.floordiv,
+    ast.Div: operator.truediv,
     ast.Mod: operator.mod,
     ast.Pow: operator.pow,
     ast.LShift: operator.lshift,
@@ -220,6 +221,15 @@ class Folder:
                     return f(*a)
                 except Exception as exc:
                     raise Unknown(str(exc))
+        if isinstance(fn, ast.Attribute) and isinstance(fn.value, ast.Name) and fn.value.id == "math" \
+                and fn.attr in ("ceil", "floor", "log2") and len(e.args) == 1:
+            import math
+            try:
+                return getattr(math, fn.attr)(self.fold(e.args[0]))
+            except Unknown:
+                raise
+            except Exception as exc:
+                raise Unknown(str(exc))
         if isinstance(fn, ast.Attribute):
             # Settings().get()
             if fn.attr == "get" and isinstance(fn.value, ast.Call) and not e.args:
